@@ -281,6 +281,57 @@ def run(pid, tier, replay=None):
         chk.model_drift(str(dft))
     sk.restore_cfg()
     chk.extra["exhaustive"] = True
+    # (e) the recorded real blocks stay valid while the miner's thread builds proof-of-work evidence on the same chain: the verdict of full
+    #     validation (real scrypt, memoised per input for this stage) is a function of the block and the chain (Interfere.tla; every
+    #     preemption point of the evidence construction and of the validation, both directions)
+    from checks import interfere
+    rc_ = interfere.design(chk, pid)
+    if rc_:
+        return rc_
+    sk.apply_cfg(cfg2)
+    memo = {}
+    real_scrypt_fn = c.scrypt
+
+    def memo_scrypt(a_, b_):
+        k_ = (bytes(a_), bytes(b_))
+        if k_ not in memo:
+            memo[k_] = real_scrypt_fn(a_, b_)
+        return memo[k_]
+    c.scrypt = memo_scrypt
+    try:
+        gI = Block.deserialize(genesis_block_data)
+        realblocks = [Block.deserialize(open(os.path.join(d, fn), "rb").read()) for fn in sorted(os.listdir(d))]
+        realblocks = sorted([b_ for b_ in realblocks if b_.height > 0], key=lambda b_: b_.height)[:5]
+        csI = CoinState.empty().add_block_no_validation(gI)
+        for b_ in realblocks[:-1]:
+            csI = csI.add_block_no_validation(b_)
+        last = realblocks[-1]
+        prev = realblocks[-2]
+
+        def fa_():
+            out = []
+            for (b_, st_) in ((last, csI),):
+                try:
+                    c.validate_block_in_coinstate(b_, st_)
+                    out.append("valid")
+                except Exception as e_:
+                    out.append(type(e_).__name__ + ": " + str(e_)[:40])
+            return out
+        cand_cb = c.construct_coinbase_transaction(last.height, [], csI.unspent_transaction_outs_by_hash[prev.hash()], b"x", last.transactions[0].outputs[0].public_key)
+
+        def fb_():
+            summ = c.construct_minable_summary(csI, [cand_cb], prev.timestamp + 77, 12345)
+            ev_ = c.construct_pow_evidence(csI, summ, last.height, [cand_cb])
+            return ev_.serialize().hex()
+        if fa_() != ["valid"]:
+            chk.violation("C18:recorded_real_block_rejected_by_full_validation", {"height": last.height, "verdict": fa_()})
+        else:
+            itr = interfere.explore_pair(chk, pid, "validation_of_a_recorded_real_block", fa_, fb_, quick, rng,
+                                         files=("skepticoin/pow.py", "skepticoin/consensus.py", "skepticoin/datatypes.py", "skepticoin/serialization.py"),
+                                         max_points=400 if quick else 5000)
+            interfere.judge(chk, itr, pid)
+    finally:
+        c.scrypt = real_scrypt_fn
     chk.extra["rule"] = ("every one of the %d checkpointed heights with a right-id and a wrong-id candidate (block objects carrying that id), non-checkpointed heights below/above the "
                          "horizon; genesis + %d recorded real blocks with the real scrypt" % (len(heights), len(names)))
     chk.assumptions.append("scope as in the property: the validator's checkpoint rule; during bulk download the node validates only every 10,000th block (by design, not consulted there)")
